@@ -141,10 +141,14 @@ class IterableQueue(Iterator[Elem]):
             self._spare_lids = queue.Queue(maxsize=num_suppliers)
             self._applied_lids = queue.Queue(maxsize=num_suppliers)
             self._used_lids = queue.Queue(maxsize=num_suppliers)
+            self._lids_lock = threading.Lock()
         else:
             self._spare_lids = multiprocessing.Queue(maxsize=num_suppliers)
             self._applied_lids = multiprocessing.Queue(maxsize=num_suppliers)
             self._used_lids = multiprocessing.Queue(maxsize=num_suppliers)
+            self._lids_lock = multiprocessing.Lock()
+        # `_lids_lock` makes "move one lid and see whether that completed the set" atomic,
+        # so that exactly one consumer adds the extra end marker.
         for _ in range(num_suppliers):
             self._spare_lids.put(None)
         # User should not touch these internal helper queues.
@@ -161,6 +165,7 @@ class IterableQueue(Iterator[Elem]):
             self._applied_lids,
             self._used_lids,
             self._can_timeout,
+            self._lids_lock,
         )
 
     def __setstate__(self, zz):
@@ -172,6 +177,7 @@ class IterableQueue(Iterator[Elem]):
             self._applied_lids,
             self._used_lids,
             self._can_timeout,
+            self._lids_lock,
         ) = zz
 
     @property
@@ -262,9 +268,11 @@ class IterableQueue(Iterator[Elem]):
                 # This does not increase the number of `None`s in the queue
                 # as it simply replaces the one that is just taken off the queue.
                 raise StopIteration
-            z = self._applied_lids.get()
-            self._used_lids.put(z)
-            if self._used_lids.full():
+            with self._lids_lock:
+                z = self._applied_lids.get()
+                self._used_lids.put(z)
+                is_last = self._used_lids.full()
+            if is_last:
                 # This is the first consumer who sees the queue is exhausted.
                 # Put an extra `None` in the queue for other consumers to see.
                 # This is needed because we don't assume nor limit the number
